@@ -61,11 +61,14 @@ static void op_c14_trigger(Exec& x, const Json& op, int)
 		std::vector<std::string> files = x.live_files(top);
 		if (files.empty()) break;
 		bool any = false;
+		// an empty recorded file is never "rewritten": keep the trigger clean (decided before anything is touched)
+		bool has_empty = false;
+		for (auto& f : files) { Bytes b; x.sb.get_file(f, b); if (recorded(f, nullptr) && b.empty()) has_empty = true; }
+		if (has_empty) break;
 		for (auto& f : files) {
 			Bytes b; x.sb.get_file(f, b);
 			uint64_t rs = 0;
 			if (!recorded(f, &rs)) continue;
-			if (b.empty()) { any = false; files.clear(); break; } // an empty recorded file is never "rewritten": keep the trigger clean
 			int64_t s, ns; x.sb.next_stamp(s, ns);
 			x.sb.put_file(f, gen_bytes(r.next(), b.size()), s, ns, true);
 			any = true;
@@ -100,7 +103,13 @@ static void op_c14_trigger(Exec& x, const Json& op, int)
 		x.sb.write_conf();
 		what = "blocksize changed in the configuration"; applied = true;
 		break;
-	case 5: // hash size changed
+	case 5: { // hash size changed
+		// the content file records the hash size through the hashes it stores (the default size is not even written):
+		// without a single hashed block there is nothing that could differ
+		bool any_block = false;
+		for (auto& f : pre_lc->c.files) if (!f.blocks.empty()) any_block = true;
+		if (!any_block) break;
+		}
 		x.sb.cfg.hash_size = x.sb.cfg.hash_size == 16 ? 8 : 16;
 		x.sb.write_conf();
 		what = "hashsize changed in the configuration"; applied = true;
@@ -127,14 +136,18 @@ static void op_c14_trigger(Exec& x, const Json& op, int)
 		int kind = (int)r.below(3);
 		if (kind == 0) {
 			int64_t s, ns; x.sb.next_stamp(s, ns);
-			x.sb.put_file(top + "/arrived_" + strf("%d", (int)r.below(100)), gen_bytes(r.next(), 1 + r.below(3000)), s, ns);
+			x.sb.put_file(top + "/arrived_" + strf("%u_%d", x.sb.cmd_index, (int)r.below(100)), gen_bytes(r.next(), 1 + r.below(3000)), s, ns);
 			what += " + a new file on it";
 			x.probe("c14.emptied_disk_with_new_file");
 		} else {
 			std::vector<const CFile*> cand;
 			for (auto& f : pre_lc->c.files) {
 				const DiskCfg* d = x.sb.disk(pre_lc->c.maps[f.map_idx].name);
-				if (d && d->top != top && f.size > 0 && !x.sb.exists(top + "/" + f.sub)) cand.push_back(&f);
+				// (not under a path the emptied disk had recorded itself: that would bring a known file back; and only files that
+				// still are what the content records, else the "copy" is a decoy - family decoy's business)
+				uint64_t csz = 0; int64_t cs = 0, cns = 0;
+				if (d && d->top != top && f.size > 0 && !x.sb.exists(top + "/" + f.sub) && !recorded(top + "/" + f.sub, nullptr)
+					&& x.sb.stat_file(d->top + "/" + f.sub, csz, cs, cns) && csz == f.size && cs == f.mtime_sec && cns == f.mtime_nsec) cand.push_back(&f);
 			}
 			size_t n = kind == 1 ? 1 : cand.size(); // one copy, or everything the other disks hold (swapped mount points)
 			for (size_t i = 0; i < n && !cand.empty(); ++i) {
@@ -150,7 +163,7 @@ static void op_c14_trigger(Exec& x, const Json& op, int)
 	if (op.num("mix")) {
 		int64_t s, ns; x.sb.next_stamp(s, ns);
 		std::string top = x.disk_top(op.num("d") + 1);
-		if (trig != 6 && trig != 0 && trig != 1) x.sb.put_file(top + "/mixed_in_" + strf("%d", (int)r.below(100)), gen_bytes(r.next(), r.below(3000)), s, ns);
+		if (trig != 6 && trig != 0 && trig != 1) x.sb.put_file(top + "/mixed_in_" + strf("%u_%d", x.sb.cmd_index, (int)r.below(100)), gen_bytes(r.next(), r.below(3000)), s, ns); // never the name of an earlier one
 	}
 	std::map<std::string, Bytes> before = array_files(x);
 	CmdSpec s;
